@@ -15,7 +15,6 @@ import (
 	"verif/sim/gen"
 	"verif/sim/store"
 	"verif/sim/tape"
-	"verif/sim/world"
 )
 
 // C06 — preload / entity access fetches the whole entity, nothing beyond, or fails.
@@ -49,7 +48,7 @@ func (c06) Runs(t Tier) int {
 }
 func (c06) RecordWidths() map[string]int { return nil }
 func (c06) RequiredProbes() []string {
-	return []string{"file-entity", "dir-entity", "plain-dir-entity", "via-path-selector", "preload-reifier", "preload-selector", "entity-selector", "fault-on-last-block", "fault-on-interior", "kth-load", "subset-fault", "entries-have-blocks"}
+	return []string{"file-entity", "dir-entity", "plain-dir-entity", "linksystem-with-node-reifier", "via-path-selector", "preload-reifier", "preload-selector", "entity-selector", "fault-on-last-block", "fault-on-interior", "kth-load", "subset-fault", "entries-have-blocks"}
 }
 
 type c06Scenario struct {
@@ -73,6 +72,10 @@ func (c06) Run(ts *tape.Set, tier Tier) *Result {
 		viaPath = false
 	}
 	planSeed := shape.Raw()
+	nodeReifier := planSeed%3 == 0 // LinkSystem.NodeReifier = Reify: loads hand out lazily reified nodes
+	if nodeReifier {
+		res.probe("linksystem-with-node-reifier")
+	}
 
 	st := store.New()
 	var entity cid.Cid
@@ -188,7 +191,7 @@ func (c06) Run(ts *tape.Set, tier Tier) *Result {
 		st.ResetLog()
 		st.ReadPolicy = nil
 		var hits func() []cid.Cid
-		w := world.New(st, false)
+		w := newWorld(st, false, nodeReifier)
 		panicked, site, pmsg = guard(func() {
 			// the caller loads the starting block itself
 			rn, lerr := w.LoadRoot(start)
